@@ -221,16 +221,15 @@ pub fn check_case(ctx: &Ctx, c: &Case) -> &'static str {
         }
         Caught::Ret(Ok(s)) => s,
     };
-    let Some(vcp) = vcp else {
-        ctx.fail("scan:ok_without_volume_block", || format!("{:?}: coverage pattern {}", c, scan.coverage_pattern_number()), wit);
-        return "ok_without_vol";
-    };
+    // without any volume block the property does not say what the pattern number must be
+    if let Some(vcp) = vcp {
     if scan.coverage_pattern_number() != vcp {
         ctx.fail(
             &format!("scan:coverage_pattern_not_first_volume_block:vol_placement={}", c.vol),
             || format!("{:?}: got {} expected {vcp}", c, scan.coverage_pattern_number()),
             wit,
         );
+    }
     }
     // concatenation
     let got: Vec<&Radial> = scan.sweeps().iter().flat_map(|s| s.radials().iter()).collect();
